@@ -24,6 +24,7 @@ func runC05(c *Ctx, r *Report) {
 	c05R5(c, r, "C05.R5")
 	c05R6(c, r, "C05.R6")
 	c05R7(c, r, "C05.R7")
+	c05UDPDeadline(c, r, "C05.R13")
 	// "matching is not abandoned before the timeout while some route is undecided": an undecided matcher must say
 	// need-more in the one form the router recognises, otherwise the connection is dropped at once
 	c06R3(c, r, "C05.R8")
@@ -165,10 +166,15 @@ func c05R4(c *Ctx, r *Report, rule string) {
 						conds := edgeConds(ci.Block())
 						if len(conds) == 0 {
 							good = true
-						} else if fnName == "layer4.(*listener).handle" && len(conds) == 1 {
-							if cl2, ok := conds[0].V.(*ssa.Call); ok && calleeID(cl2) == "errors.Is" && !conds[0].Truth {
-								if hasOrigin(origins(cl2.Call.Args[1], sliceOpts{}), "global", "layer4.errHijacked") {
-									good = true
+						} else if fnName == "layer4.(*listener).handle" {
+							// guarded: the guard must be exactly 'not handed off', which the path evaluation of
+							// listener.handle decides (Close runs iff the route handler's result is not errHijacked)
+							tmp := newReport("tmp")
+							c13R3(c, tmp, "tmp")
+							good = len(tmp.Obls) > 0
+							for _, o := range tmp.Obls {
+								if !o.OK {
+									good = false
 								}
 							}
 						}
